@@ -2,7 +2,8 @@
   C05 — Statistics-based row-group skipping is sound.
 
   Tables: the TRANSLATED `Gen.Pruning.{eval_range, eval_range_i32, eval_range_f64, eval_range_str, definite_table, flip_op}`
-  (regenerated from src/storage/row_group_pruning.rs on every run).  Recursive functions: the hand model IQE.Engine.Pruning
+  (regenerated from src/storage/row_group_pruning.rs on every run); the executable model carries hand copies, proved equal here
+  (`C05_tables_are_translated`), so the shared driver never imports generated code.  Recursive functions: the hand model IQE.Engine.Pruning
   (`mightMatch`, `definitelyMatches`, `checkComparison`, `definiteComparison`, `pruneRowGroups`).
   `Dev.none` = intended algorithm = the current tree (`Dev.current`, since fix e356a0a); `Dev.old` = the tree before it
   (`definiteViaF64`: integer statistics and literal compared after `as f64`; `i32Narrowing`: `i64 as i32` in `check_i32_stats`).
@@ -16,31 +17,64 @@
   arbitrary meanings (`oth`, `othP`) of the sub-expressions the pruner does not look into.
 -/
 import IQE.Lemmas.Pruning
+import IQE.Gen.Pruning
 namespace IQE.Props.C05
 open IQE IQE.Engine.Pruning
-open IQE.Gen.Pruning (BinaryOp flip_op eval_range eval_range_i32 eval_range_f64 eval_range_str definite_table)
 
-/-- the translated integer range tables never exclude a range that contains a satisfying value -/
-theorem C05_eval_range_sound (op : BinaryOp) (val mn mx v : Int) (h1 : mn ≤ v) (h2 : v ≤ mx) (h : satI op v val = true) :
-    eval_range op val mn mx = true ∧ eval_range_i32 op val mn mx = true :=
-  ⟨eval_range_sound op val mn mx v h1 h2 h, eval_range_i32_sound op val mn mx v h1 h2 h⟩
+/-! ### bridge: the tables the executable model uses ARE the translated ones -/
 
-/-- the translated float table, under the no-NaN / no-negative-zero hypothesis (`fOk`), against the TOTAL order of the predicate -/
-theorem C05_eval_range_f64_sound (op : BinaryOp) (val mn mx v : F64) (hmn : mn.isNaN = false) (hmx : mx.isNaN = false)
-    (hv : fOk v) (hval : fOk val) (h1 : F64.le mn v = true) (h2 : F64.le v mx = true) (h : satF op v val = true) :
-    eval_range_f64 op val mn mx = true :=
-  eval_range_f64_sound op val mn mx v hmn hmx hv hval h1 h2 h
+def toGen : BinaryOp → IQE.Gen.Pruning.BinaryOp
+  | .Add => .Add | .Subtract => .Subtract | .Multiply => .Multiply | .Divide => .Divide | .Modulo => .Modulo
+  | .Eq => .Eq | .NotEq => .NotEq | .Lt => .Lt | .LtEq => .LtEq | .Gt => .Gt | .GtEq => .GtEq
+  | .And => .And | .Or => .Or | .Like => .Like | .NotLike => .NotLike | .StringConcat => .StringConcat
+def ofGen : IQE.Gen.Pruning.BinaryOp → BinaryOp
+  | .Add => .Add | .Subtract => .Subtract | .Multiply => .Multiply | .Divide => .Divide | .Modulo => .Modulo
+  | .Eq => .Eq | .NotEq => .NotEq | .Lt => .Lt | .LtEq => .LtEq | .Gt => .Gt | .GtEq => .GtEq
+  | .And => .And | .Or => .Or | .Like => .Like | .NotLike => .NotLike | .StringConcat => .StringConcat
 
-/-- the translated string table: byte-wise order (Rust `&str`), all six operators -/
-theorem C05_eval_range_str_sound (op : BinaryOp) (val mn mx v : Rs.Str) (h1 : Rs.bytesLe mn.utf8 v.utf8 = true)
-    (h2 : Rs.bytesLe v.utf8 mx.utf8 = true) (h : satS op v val = true) : eval_range_str op val mn mx = true :=
-  eval_range_str_sound op val mn mx v h1 h2 h
+/-- the model's operator type is the translated enum (same variants) -/
+theorem C05_op_bijection : (∀ op, ofGen (toGen op) = op) ∧ (∀ g, toGen (ofGen g) = g) :=
+  ⟨fun op => by cases op <;> rfl, fun g => by cases g <;> rfl⟩
 
-/-- the translated "definitely" table is sound in the float domain (same hypothesis) -/
-theorem C05_definite_table_sound (op : BinaryOp) (val mn mx v : F64) (hmn : mn.isNaN = false) (hmx : mx.isNaN = false)
-    (hv : fOk v) (hval : fOk val) (h1 : F64.le mn v = true) (h2 : F64.le v mx = true) (h : definite_table op mn mx val = true) :
-    satF op v val = true :=
-  definite_table_sound op val mn mx v hmn hmx hv hval h1 h2 h
+/-- every table of the executable model equals its TRANSLATED counterpart (regenerated from the source on every run):
+    a source edit that changes a table breaks this theorem (or the soundness theorems below), not the driver. -/
+theorem C05_tables_are_translated :
+    (∀ op, IQE.Gen.Pruning.flip_op (toGen op) = toGen (flip_op op)) ∧
+    (∀ op val mn mx, IQE.Gen.Pruning.eval_range (toGen op) val mn mx = eval_range op val mn mx) ∧
+    (∀ op val mn mx, IQE.Gen.Pruning.eval_range_i32 (toGen op) val mn mx = eval_range_i32 op val mn mx) ∧
+    (∀ op val mn mx, IQE.Gen.Pruning.eval_range_f64 (toGen op) val mn mx = eval_range_f64 op val mn mx) ∧
+    (∀ op val mn mx, IQE.Gen.Pruning.eval_range_str (toGen op) val mn mx = eval_range_str op val mn mx) ∧
+    (∀ op mn mx val, IQE.Gen.Pruning.definite_table (toGen op) mn mx val = definite_table op mn mx val) :=
+  ⟨fun op => by cases op <;> rfl, fun op _ _ _ => by cases op <;> rfl, fun op _ _ _ => by cases op <;> rfl,
+   fun op _ _ _ => by cases op <;> rfl, fun op _ _ _ => by cases op <;> rfl, fun op _ _ _ => by cases op <;> rfl⟩
+
+theorem C05_toGen_ofGen (g : IQE.Gen.Pruning.BinaryOp) : toGen (ofGen g) = g := C05_op_bijection.2 g
+
+/-- the TRANSLATED integer range tables never exclude a range that contains a satisfying value -/
+theorem C05_eval_range_sound (g : IQE.Gen.Pruning.BinaryOp) (val mn mx v : Int) (h1 : mn ≤ v) (h2 : v ≤ mx) (h : satI (ofGen g) v val = true) :
+    IQE.Gen.Pruning.eval_range g val mn mx = true ∧ IQE.Gen.Pruning.eval_range_i32 g val mn mx = true := by
+  rw [← C05_toGen_ofGen g, C05_tables_are_translated.2.1, C05_tables_are_translated.2.2.1]
+  exact ⟨eval_range_sound _ val mn mx v h1 h2 h, eval_range_i32_sound _ val mn mx v h1 h2 h⟩
+
+/-- the TRANSLATED float table, under the no-NaN / no-negative-zero hypothesis (`fOk`), against the TOTAL order of the predicate -/
+theorem C05_eval_range_f64_sound (g : IQE.Gen.Pruning.BinaryOp) (val mn mx v : F64) (hmn : mn.isNaN = false) (hmx : mx.isNaN = false)
+    (hv : fOk v) (hval : fOk val) (h1 : F64.le mn v = true) (h2 : F64.le v mx = true) (h : satF (ofGen g) v val = true) :
+    IQE.Gen.Pruning.eval_range_f64 g val mn mx = true := by
+  rw [← C05_toGen_ofGen g, C05_tables_are_translated.2.2.2.1]
+  exact eval_range_f64_sound _ val mn mx v hmn hmx hv hval h1 h2 h
+
+/-- the TRANSLATED string table: byte-wise order (Rust `&str`), all six operators -/
+theorem C05_eval_range_str_sound (g : IQE.Gen.Pruning.BinaryOp) (val mn mx v : Rs.Str) (h1 : Rs.bytesLe mn.utf8 v.utf8 = true)
+    (h2 : Rs.bytesLe v.utf8 mx.utf8 = true) (h : satS (ofGen g) v val = true) : IQE.Gen.Pruning.eval_range_str g val mn mx = true := by
+  rw [← C05_toGen_ofGen g, C05_tables_are_translated.2.2.2.2.1]
+  exact eval_range_str_sound _ val mn mx v h1 h2 h
+
+/-- the TRANSLATED "definitely" table is sound in the float domain (same hypothesis) -/
+theorem C05_definite_table_sound (g : IQE.Gen.Pruning.BinaryOp) (val mn mx v : F64) (hmn : mn.isNaN = false) (hmx : mx.isNaN = false)
+    (hv : fOk v) (hval : fOk val) (h1 : F64.le mn v = true) (h2 : F64.le v mx = true) (h : IQE.Gen.Pruning.definite_table g mn mx val = true) :
+    satF (ofGen g) v val = true := by
+  rw [← C05_toGen_ofGen g, C05_tables_are_translated.2.2.2.2.2] at h
+  exact definite_table_sound _ val mn mx v hmn hmx hv hval h1 h2 h
 
 /-- `row_group_might_match` never drops a row group that holds a row the predicate keeps — every predicate built from
     comparison (literal on either side), BETWEEN, IN, NOT, AND, OR, and anything else treated conservatively. -/
